@@ -82,7 +82,7 @@ def run(ctx):
             ctx.lost('MPT-C01a', '%s no longer calls append_wal_entry' % fn.key)
             continue
         exits_dominated(ctx, 'MPT-C01a', fn, apps, 'append_wal_entry', exempt)
-    ctx.floor('MPT-C01a', n_app, 3, 'append_wal_entry call sites (parent, chunk, tombstone)')
+    ctx.floor('MPT-C01a', n_app, 2, 'append_wal_entry call sites (parent, chunk, tombstone)')
     if awe is not None:
         ctx.touch(awe, len(awe.blocks))
         ae = awe.calls_to('EmbeddedWal::append_entry')
